@@ -56,6 +56,43 @@ func c18Value(r *fw.Rand, d int) float64 {
 	}
 }
 
+func c18Model(r *fw.Rand, d int, layouts []geom.Layout, valid bool) *model.G {
+	g := c18ModelBase(r, d, layouts, valid)
+	l := g.Layout
+	if g.Kind == model.Collection {
+		l = g.CollectionLayout()
+	}
+	if mi := l.MIndex(); mi >= 0 && r.Chance(1, 3) {
+		// a ring is closed in X, Y (and Z); its closing vertex may carry another M
+		c18ClosingM(r, g, mi, d)
+	}
+	return g
+}
+
+func c18ClosingM(r *fw.Rand, g *model.G, mi, d int) {
+	ring := func(seq [][]float64) {
+		if len(seq) >= 2 && len(seq[len(seq)-1]) > mi {
+			seq[len(seq)-1][mi] = c18Value(r, d)
+		}
+	}
+	switch g.Kind {
+	case model.Polygon:
+		for _, s := range g.C2 {
+			ring(s)
+		}
+	case model.MultiPolygon:
+		for _, p := range g.C3 {
+			for _, s := range p {
+				ring(s)
+			}
+		}
+	case model.Collection:
+		for _, m := range g.Members {
+			c18ClosingM(r, m, mi, d)
+		}
+	}
+}
+
 type c18stats struct {
 	numbers int
 }
@@ -161,7 +198,7 @@ func flattenOrdinates(g *model.G) []float64 {
 	return out
 }
 
-func c18Model(r *fw.Rand, d int, layouts []geom.Layout, valid bool) *model.G {
+func c18ModelBase(r *fw.Rand, d int, layouts []geom.Layout, valid bool) *model.G {
 	cf := func(r *fw.Rand, stride int) []float64 {
 		c := make([]float64, stride)
 		for i := range c {
@@ -425,6 +462,40 @@ func c18GeoJSON(c *fw.Ctx, idx int) {
 	if string(a) != string(b) {
 		c.Fail("option-order", "the two option orders give different output: %s vs %s", clipStr(string(a), 200), clipStr(string(b), 200))
 		return
+	}
+	if r.Chance(1, 3) {
+		// a third option (the crs member) in every position among the other two: the
+		// coordinates, and the bbox when one was asked for, are what they are without it
+		crs := geojson.EncodeGeometryWithCRS(&geojson.CRS{Type: "name", Properties: map[string]interface{}{"name": "urn:ogc:def:crs:OGC:1.3:CRS84"}})
+		base := append([]geojson.EncodeGeometryOption{}, optsA...)
+		if r.Bool() && len(base) == 2 {
+			base[0], base[1] = base[1], base[0]
+		}
+		for pos := 0; pos <= len(base); pos++ {
+			o3 := append(append(append([]geojson.EncodeGeometryOption{}, base[:pos]...), crs), base[pos:]...)
+			var with []byte
+			var e3 error
+			if c.Guard("panic", func() { with, e3 = geojson.Marshal(t, o3...) }) {
+				return
+			}
+			c.Eval(1)
+			c.Count("crs_option_among_the_others")
+			if e3 != nil {
+				c.Fail("marshal-error", "geojson.Marshal with digits, bbox and crs options failed: %v", e3)
+				return
+			}
+			var mw, ma map[string]json.RawMessage
+			if json.Unmarshal(with, &mw) != nil || json.Unmarshal(a, &ma) != nil {
+				c.Fail("invalid-output", "output with a crs option is not a JSON object: %s", clipStr(string(with), 200))
+				return
+			}
+			for _, key := range []string{"type", "coordinates", "bbox", "geometries"} {
+				if string(mw[key]) != string(ma[key]) {
+					c.Fail("option-order", "with a crs option at position %d of %d the member %q is %s; without it %s", pos, len(o3), key, clipStr(string(mw[key]), 200), clipStr(string(ma[key]), 200))
+					return
+				}
+			}
+		}
 	}
 	if r.Chance(1, 3) {
 		// the digits option given twice: the output of one of the two values, not a mixture
